@@ -32,7 +32,7 @@ def examples(tier):
 
 
 def strategy(tier):
-    return gen_store.case(CLASSES, WEIGHTS, max_ops=40)
+    return gen_store.case(CLASSES, WEIGHTS, max_ops=40, macros=5, extra=2)
 
 
 shrink_candidates = gen_store.shrink_candidates
@@ -251,3 +251,14 @@ def run_case(case):
     if res.aborted:
         res.classes.append("aborted:" + res.aborted)
     return res
+
+
+def enumerate_cases(tier, shard, nshards):
+    return gen_store.enumerate_histories(shard, nshards)
+
+
+def enum_definition(tier):
+    return gen_store.enum_definition()
+
+
+is_enumerated = gen_store.is_enumerated
